@@ -238,7 +238,13 @@ def rules(ctx):
         if m_:
             it = m_.group(1)
         ok = False
-        if not gen.ifs:
+        itn = expand_names(fn.node, gen.iter)
+        while isinstance(itn, ast.Call) and is_name(itn.func, 'tuple', 'list') and len(itn.args) == 1:
+            itn = itn.args[0]
+        filtered_src = isinstance(itn, (ast.ListComp, ast.GeneratorExp)) and len(itn.generators) == 1 and bool(itn.generators[0].ifs)
+        if filtered_src:
+            it = src(itn.generators[0].iter)       # the reducer runs over a pre-filtered copy of this collection
+        if not gen.ifs and not filtered_src:
             ok = ('truthy', it) in facts
         else:
             # filtered domain: need a guard any(<same filter> ...) over the same collection
